@@ -1240,8 +1240,19 @@ namespace awkward {
       ContentPtrVec outcontents;
       for (int64_t i = 0;  i < numcontents();  i++) {
         ContentPtr projection = project(i);
+        // keep only the positions of `advanced` that belong to this content's items
+        Index64 nextadvanced = (advanced.length() == 0 ? advanced : Index64(projection.get()->length()));
+        if (advanced.length() != 0) {
+          int64_t k = 0;
+          for (int64_t j = 0;  j < tags_.length()  &&  j < advanced.length();  j++) {
+            if ((int64_t)tags_.getitem_at_nowrap(j) == i) {
+              nextadvanced.setitem_at_nowrap(k, advanced.getitem_at_nowrap(j));
+              k++;
+            }
+          }
+        }
         outcontents.push_back(
-          projection.get()->getitem_next(head, tail, advanced));
+          projection.get()->getitem_next(head, tail, nextadvanced));
       }
       IndexOf<I> outindex = regular_index(tags_);
       UnionArrayOf<T, I> out(identities_,
